@@ -675,6 +675,7 @@ def j_trace(rep, sc, meta, tier, seed):
         paths.append(p)
     filtered = []
     inexact = explained = 0
+    clean, clean_done = [], False      # events of the first trace that the comparator finds in order (for the self-test)
     for p in paths:
         evs = nv.read_ndjson_text(open(p).read())
         keep = []
@@ -693,6 +694,8 @@ def j_trace(rep, sc, meta, tier, seed):
             exp = [float(e["sign"] * x) for x in d[:len(ch["units"]) - 1]] + \
                   [e["sign"] * (d[len(ch["units"]) - 1] + (d[-1] / scale if e["m"] else 0.0))]
             kind, detail = classify_split(ch["units"], sizes, total, obs, exp)
+            if kind is None and not clean_done:
+                clean.append({k2: e[k2] for k2 in ("chain", "m", "sign", "n", "outcome", "exact", "units_ok", "parts")})
             if kind:
                 v = dict(kind=kind, chain=e["chain"], expr=e["code"], impl_parts=[x for x, _ in obs], spec_parts=exp, source="J-trace",
                          obs={"k": "list", "items": [{"k": "q", "u": x["u"], "v": x["v"]} for x in e["raw"]]}, **detail)
@@ -707,6 +710,7 @@ def j_trace(rep, sc, meta, tier, seed):
         fp = p.replace(".ndjson", "_f.ndjson")
         nv.write_ndjson(fp, keep)
         filtered.append(fp)
+        clean_done = True
     results = nv.validate_traces_parallel("Trace_StdlibLaws", filtered, timeout=1500, jobs=4)
     for fp, r in zip(filtered, results):
         rep.add("traces_validated_against_impl", 1)
@@ -718,20 +722,22 @@ def j_trace(rep, sc, meta, tier, seed):
             already = any(v.get("source") == "J-trace" and ev and v.get("chain") == ev["chain"] for v in rep.violations)
             if not already:
                 rep.violation({"kind": "trace-rejected", "matched": m, "total": r["total"], "violated": r["violated"],
-                               "event": ev, "trace_file": fp}, known_matcher)
+                               "event": ev}, known_matcher)
     rep.set("j_trace", {"traces": ntr, "events": ntr * nev, "outside_integer_model_judged_by_comparator": inexact,
                         "explained_by_known_finding": explained})
     rep.sample({"J_trace_event": json.loads(open(filtered[0]).readline())})
-    return filtered
+    cp = os.path.join(sc, "trace_clean.ndjson")
+    nv.write_ndjson(cp, clean)
+    return cp
 
 
 # ---------------------------------------------------------------------------------------------
 # binding self-tests: a corrupted expectation / recorded field must be noticed
 
-def self_tests(rep, sc, meta, law_cases, split_cases, traces):
+def self_tests(rep, sc, meta, law_cases, split_cases, clean_trace):
     chains = {c["id"]: c for c in meta["chains"]}
     # G unit_list: corrupt one expected part
-    c = next(x for x in split_cases if x["n"] > 100 and x["m"] == 0 and x["sign"] == 1)
+    c = next(x for x in split_cases if x["chain"] == "hms" and x["n"] == 3661 and x["m"] == 0 and x["sign"] == 1)
     ch = chains[c["chain"]]
     expr = split_expr(ch["units"], int_lit(1, c["n"], 0), ch["units"][-1])
     o = evaluate(sc, "self_split", [{"id": 0, "steps": [expr]}])[0][0]
@@ -755,7 +761,7 @@ def self_tests(rep, sc, meta, law_cases, split_cases, traces):
     v2 = judge_real(probe, st, row, "selftest", ("x", "m", "r"), fake, "1/2")
     rep.notes["selftest_G_law_outside_tolerance_detected"] = (v1 == "violation" and v2 == "ok")
     # J trace: corrupt one recorded part
-    lines = open(traces[0]).read().splitlines()
+    lines = open(clean_trace).read().splitlines()
     k = next(i for i in range(len(lines) // 2, len(lines)) if json.loads(lines[i])["exact"] and json.loads(lines[i])["n"] > 0)
     e = json.loads(lines[k])
     e["parts"][-1] += e["sign"]
@@ -791,12 +797,11 @@ def run(tier, seed):
     t2 = time.time()
     j_unit_lists(rep, sc, meta, tier, seed)
     t3 = time.time()
-    traces = j_trace(rep, sc, meta, tier, seed)
+    clean_trace = j_trace(rep, sc, meta, tier, seed)
     t4 = time.time()
     rep.set("phase_wall_s", {"MC+G": round(t1 - t0, 1), "J laws": round(t2 - t1, 1), "J unit lists": round(t3 - t2, 1), "J trace": round(t4 - t3, 1)})
     nv.log("phases:", rep.cov["phase_wall_s"])
-    if not rep.violations:
-        self_tests(rep, sc, meta, law_cases, split_cases, traces)
+    self_tests(rep, sc, meta, law_cases, split_cases, clean_trace)
     worst = sorted(((s["max_err_in_eps_units"], rid) for rid, s in stats.rows.items()), reverse=True)
     rep.set("max_round_trip_error_in_units_of_2^-52*(A+|x|)", {rid: round(v, 2) for v, rid in worst[:12]})
     rep.set("rule", "G: every row of the law table x every grid/extra point of its domain, every instant row x InstantN "
@@ -815,8 +820,7 @@ def run(tier, seed):
         "the spec is not an oracle for transcendental values: closeness is judged by the comparator, inputs are the f64 the "
         "implementation itself reads from the case's text",
         "random unit lists skip currencies (exchange rates) and lists with two units of equal size"]
-    if not rep.violations:
-        shutil.rmtree(sc, ignore_errors=True)
+    shutil.rmtree(sc, ignore_errors=True)      # the replay file carries the failing expressions and observations
     return rep.finish()
 
 
